@@ -10,6 +10,7 @@ import (
 	"github.com/elastos/Elastos.ELA/core/types/interfaces"
 	"github.com/elastos/Elastos.ELA/core/types/outputpayload"
 	"github.com/elastos/Elastos.ELA/core/types/payload"
+	crstate "github.com/elastos/Elastos.ELA/cr/state"
 	dstate "github.com/elastos/Elastos.ELA/dpos/state"
 	"pgregory.net/rapid"
 )
@@ -21,6 +22,7 @@ type Gen struct {
 	K          *Kit
 	NProducers int // size of the producer cast (<= 12)
 	NVoters    int // size of the voter cast (<= 8)
+	NCRCast    int // size of the CR candidate cast (default 6)
 	MaxTxs     int // candidate transactions per block
 
 	// Kinds lists the enabled candidate kinds with weights.
@@ -85,15 +87,63 @@ func (g *Gen) kindNames() []string {
 
 func (g *Gen) weight(kind string) int {
 	w := g.Kinds[kind]
-	// while there are not enough voted producers to staff the arbiter set,
-	// registering and voting is what matters
-	if kind == "register" || kind == "vote" {
-		voted := len(g.K.Arbiters.State.GetVotedProducers())
-		if voted < g.K.Params.DPoSConfiguration.NormalArbitratorsCount+g.K.Params.DPoSConfiguration.CandidatesCount {
+	k := g.K
+	switch kind {
+	case "register", "vote":
+		// while there are not enough voted producers to staff the arbiter set,
+		// registering and voting is what matters
+		need := k.Params.DPoSConfiguration.NormalArbitratorsCount + k.Params.DPoSConfiguration.CandidatesCount
+		voted := len(k.Arbiters.State.GetVotedProducers())
+		active := len(k.Arbiters.State.GetActiveProducers()) + len(k.Arbiters.State.GetPendingProducers())
+		if kind == "register" && active < need {
 			w *= 4
+		}
+		if kind == "vote" && voted < need && active > voted {
+			w *= 6
+		}
+	case "registercr", "votecr":
+		// same for the first committee election
+		h := k.Height + 1
+		if h >= k.Params.CRConfiguration.CRVotingStartHeight && k.Committee.IsInVotingPeriod(h) {
+			cands := k.Committee.GetCandidates(crstate.Active)
+			pend := k.Committee.GetCandidates(crstate.Pending)
+			voted := 0
+			for _, c := range cands {
+				if c.Votes > 0 {
+					voted++
+				}
+			}
+			n := int(k.Params.CRConfiguration.MemberCount)
+			if kind == "registercr" && len(cands)+len(pend) < n+1 {
+				w *= 6
+			}
+			if kind == "votecr" && voted < n && len(cands) > voted {
+				w *= 8
+			}
 		}
 	}
 	return w
+}
+
+// understaffed tells that the arbiter set or the first committee cannot be
+// filled yet (the generator then works towards filling them).
+func (g *Gen) understaffed() bool {
+	k := g.K
+	need := k.Params.DPoSConfiguration.NormalArbitratorsCount + k.Params.DPoSConfiguration.CandidatesCount
+	if len(k.Arbiters.State.GetVotedProducers()) < need {
+		return true
+	}
+	h := k.Height + 1
+	if h >= k.Params.CRConfiguration.CRVotingStartHeight && h < k.Params.CRConfiguration.CRCommitteeStartHeight {
+		voted := 0
+		for _, c := range k.Committee.GetCandidates(crstate.Active) {
+			if c.Votes > 0 {
+				voted++
+			}
+		}
+		return voted < int(k.Params.CRConfiguration.MemberCount)
+	}
+	return false
 }
 
 func (g *Gen) drawKind(t *rapid.T) string {
@@ -124,6 +174,9 @@ func (g *Gen) Block(t *rapid.T) (*types.Block, *payload.Confirm, BlockInfo) {
 	n := 0
 	if h >= k.Params.VoteStartHeight {
 		n = rapid.IntRange(0, g.MaxTxs).Draw(t, "ntx")
+		if n < 2 && g.understaffed() {
+			n = 2
+		}
 	}
 	for i := 0; i < n; i++ {
 		kind := g.drawKind(t)
@@ -174,9 +227,36 @@ func (g *Gen) Block(t *rapid.T) (*types.Block, *payload.Confirm, BlockInfo) {
 	return b, confirm, info
 }
 
-// requiredTxs are the transactions the node demands in the next block.
+// requiredTxs are the transactions the node demands in the next block
+// (CheckBlockContext): the next-turn DPoS info, the CR appropriation and the
+// proposal-result record, built the way the node builds them.
 func (g *Gen) requiredTxs(info *BlockInfo) []interfaces.Transaction {
-	return nil
+	k := g.K
+	k.Activate()
+	var txs []interfaces.Transaction
+	if k.Arbiters.IsNeedNextTurnDPOSInfo() {
+		force := false
+		if tip := k.Blocks[k.Height]; tip != nil {
+			for _, tx := range tip.Transactions {
+				if tx.IsIllegalBlockTx() {
+					force = true
+				}
+			}
+		}
+		txs = append(txs, k.Arbiters.VerifSKNextTurnDPOSInfoTx(k.Height, force))
+		info.Txs = append(info.Txs, "nextturn()")
+	}
+	if k.Committee.IsAppropriationNeeded() {
+		if tx := k.AppropriationTx(); tx != nil {
+			txs = append(txs, tx)
+			info.Txs = append(info.Txs, fmt.Sprintf("appropriation(%d)", k.Committee.AppropriationAmount/ELA))
+		}
+	}
+	if k.Committee.IsProposalResultNeeded() {
+		txs = append(txs, k.ProposalResultTx())
+		info.Txs = append(info.Txs, "proposalresult()")
+	}
+	return txs
 }
 
 func (g *Gen) confirm(t *rapid.T, b *types.Block, info *BlockInfo) *payload.Confirm {
